@@ -3,19 +3,30 @@ import copy
 from .common import load_corpus, rbytes
 from . import wiregen as W
 
-MAKE_TARGETS = ['Proofs/Commit.vo']
+MAKE_TARGETS = ['Proofs/Commit.vo', 'Proofs/Accept.vo', 'Proofs/AcceptMulti.vo', 'Proofs/AcceptBuild.vo']
 TIES = []
 ALLOWED_AXIOMS = [r'functional_extensionality_dep', r'FunctionalExtensionality\.functional_extensionality_dep']
-PARTIAL = ['acceptance (a P2PK / P2PKH / bare m-of-n / P2SH-wrapped input signed with the library is accepted, for every hash type and '
-           'position) and rejection of signatures by foreign keys are NOT theorems: they are checked by the correspondence run on the '
-           'concrete secp256k1 (IMPL = MODEL = SPEC prediction); ECDSA correctness over an abstract prime-order group is C13',
+PARTIAL = ['acceptance IS a theorem for pay-to-pubkey, pay-to-pubkey-hash, bare m-of-n multisig (1 <= m <= n <= 16, OP_m .. OP_n form) and the '
+           'P2SH-wrapped forms of the three (C05_accept_p2pk, _p2pkh, _multisig, _p2sh_p2pk, _p2sh_p2pkh, _p2sh_multisig: VerifyScript of '
+           'the MODEL with the real oracle returns normally, for every curve satisfying curve_laws, every 32-byte hash, all 256 hash-type '
+           'bytes, every input index on which SignatureHash returns, every usable nonce, every key encoding the decoder maps to d*G, '
+           'every flag set with CLEANSTACK => P2SH, interpreter hash functions with outputs below 2^31 bytes). Explicit hypotheses that '
+           'are part of the statements: P2PKH - sig||hashtype is not the 20-byte key hash (necessary: FindAndDelete would delete the hash '
+           'push from the subscript); multisig - the signatures are by an order-preserving selection of the listed keys, all listed keys '
+           'decodable; P2SH - hash160 outputs are 20 bytes and the redeem script fits one 520-byte push. NOT theorems: that secp256k1 / '
+           'OpenSSL satisfy curve_laws (C13; checked by the correspondence run on the concrete curve); the uncompressed-key decoder law '
+           '(c_affine is not specified by curve_laws: hypothesis of C05_pubkey_uncompressed); multisig with more than 16 keys (pushed '
+           'counts) and non-template scripts',
+           'rejection of signatures by foreign keys is NOT a theorem and cannot be one at this level: for any (r, s, digest) the keys '
+           'recovered from the signature verify (C14 recover), so "signed by another key => rejected" is false as a universal '
+           'statement; it is checked on generated cases by the correspondence run',
            '"verification fails after a committed change" is proved as: the preimage changes (C05_commitment); that a changed preimage '
            'makes ECDSA verification fail is computational hardness (SHA-256d collision / signature forgery), not a theorem']
 ASSUMPTIONS = ['C05_noninterference uses the standard-library axiom functional_extensionality_dep (to replace one oracle by an extensionally equal one)',
                'the concrete curve arithmetic (Model/Secp256k1.v) is assumed, not proved, to be a group (no elliptic-curve library installed)']
 RULE = ('spending transactions 1..4 in / 0..4 out; templates P2PK, P2PKH, bare m-of-n, P2SH-wrapped m-of-n; hash types '
         '{ALL,NONE,SINGLE}x{,ANYONECANPAY} plus undefined bytes (0, 4, 0x41, 0x7f, 0xff); every signing position; followed by one '
-        'edit from the catalogue; engine 502: signer plans for the same templates (which listed or foreign key signs which slot: honest ordered subsets, one signer repeated in every slot, right keys in the wrong order, a foreign signature, too few / too many signatures), accepted iff the last m signatures are by distinct listed keys in listing order (surplus leading signatures are never examined); followed by one edit from the catalogue (each field of each input/output, insertion, removal, reordering, witness, foreign key) or none. '
+        'edit from the catalogue; one case in five asks for short DER signatures (< 70 bytes: re-signed until r or s has leading zero bytes); engine 502: signer plans for the same templates (which listed or foreign key signs which slot: honest ordered subsets, one signer repeated in every slot, right keys in the wrong order, a foreign signature, too few / too many signatures), accepted iff the last m signatures are by distinct listed keys in listing order (surplus leading signatures are never examined); followed by one edit from the catalogue (each field of each input/output, insertion, removal, reordering, witness, foreign key) or none. '
         'non-trivial = all; distinct by case text')
 IN_COQ_SAMPLE = 0     # elliptic-curve arithmetic under vm_compute is too slow (measured: 25 s per scalar multiplication)
 
@@ -30,7 +41,7 @@ def corpus():
 def classify(e, a, iv):
     if e == 502:
         return 't%d-plan-%s' % (a[0], 'honest' if a[8][1] == sorted(set(a[8][1])) and len(a[8][1]) == a[2] and all(k < a[8][0] for k in a[8][1]) else 'bad')
-    return 't%d-edit%s-%s' % (a[0], a[9] if len(a) > 9 else '?', 'wk' if a[8] else 'ok')
+    return 't%d-edit%s%s-%s' % (a[0], a[9] % 100 if len(a) > 9 else '?', '-short' if len(a) > 9 and a[9] >= 100 else '', 'wk' if a[8] else 'ok')
 
 
 def secret(rng):
@@ -136,7 +147,7 @@ def generate(rng, tier, boost):
         if e is None:
             kind = 'none'; e = apply_edit(rng, t, idx, 'none')
         t2, idx2 = e
-        cases.append((501, [template, secrets, m, t, idx, hts, t2, idx2, wrongkey, EDITS.index(kind)]))
+        cases.append((501, [template, secrets, m, t, idx, hts, t2, idx2, wrongkey, EDITS.index(kind) + (100 if c % 5 == 0 else 0)]))
     # signer plans (engine 502): which key signs which slot
     for c in range(n // 2):
         template = c % 4
@@ -169,5 +180,5 @@ def generate(rng, tier, boost):
         if e is None:
             kind = 'none'; e = apply_edit(rng, t, idx, 'none')
         t2, idx2 = e
-        cases.append((502, [template, secrets, m, t, idx, hts, t2, idx2, [nk, plan], EDITS.index(kind)]))
+        cases.append((502, [template, secrets, m, t, idx, hts, t2, idx2, [nk, plan], EDITS.index(kind) + (100 if c % 5 == 0 else 0)]))
     return cases
